@@ -337,6 +337,7 @@ class NcpEndpoint:
         self.dec = Decoder()
         self.connected = True  # False before the first RST in engines that model power-up
         self.silent = False  # fault: NCP stops doing anything
+        self.deaf = False  # fault: the NCP no longer takes host DATA frames (no ACK, no NAK, no delivery) but keeps talking itself
         self.silent_mode = None  # with silent: None = says nothing at all; "nak" = rejects every DATA frame (NAK, never an ACK); "naklast" = nothing, except a NAK for the 5th copy of a frame
         self._silent_seen = {}
         self.rst_delay = 0.0  # time the NCP takes to process an RST
@@ -481,7 +482,7 @@ class NcpEndpoint:
         if kind == "data":
             _, frm, retx, ack, payload = fr
             self._process_ack(ack)
-            if self.failed is not None:
+            if self.failed is not None or self.deaf:
                 return
             if frm == self.frm_rx:
                 self.frm_rx = (frm + 1) % 8
